@@ -5,7 +5,9 @@ EXTENDS XrGeo, CaseIO
 Bases == << [name |-> "northup", A |-> <<10, 0, 100, 0, -10, 200>>, carrier |-> "labels"], [name |-> "mirrored", A |-> <<-10, 0, 100, 0, 20, 200>>, carrier |-> "labels"],
             [name |-> "nonsquare_geo", A |-> <<2, 0, 10, 0, -1, 50>>, carrier |-> "labels"],
             [name |-> "rot90", A |-> <<0, 10, 100, 10, 0, 200>>, carrier |-> "transform"], [name |-> "pythag", A |-> <<6, -8, 100, 8, 6, 200>>, carrier |-> "transform"],
-            [name |-> "sheared", A |-> <<10, 5, 100, 0, -10, 200>>, carrier |-> "transform"], [name |-> "gcp_affine", A |-> <<6, -8, 100, 8, 6, 200>>, carrier |-> "gcp"] >>
+            [name |-> "sheared", A |-> <<10, 5, 100, 0, -10, 200>>, carrier |-> "transform"], [name |-> "gcp_affine", A |-> <<6, -8, 100, 8, 6, 200>>, carrier |-> "gcp"],
+            \* the same registration carried by a GCP box that is itself a view (cropped / zoomed: non-identity pixel affine) of its control points
+            [name |-> "gcp_view_cropped", A |-> <<6, -8, 100, 8, 6, 200>>, carrier |-> "gcp"], [name |-> "gcp_view_zoomed", A |-> <<6, -8, 100, 8, 6, 200>>, carrier |-> "gcp"] >>
 Containers == << [container |-> "DataArray", backend |-> "numpy", dims |-> "yx"], [container |-> "DataArray", backend |-> "dask", dims |-> "tyx"],
                  [container |-> "Dataset", backend |-> "numpy", dims |-> "yx"], [container |-> "DataArray", backend |-> "numpy", dims |-> "yxb"],
                  [container |-> "Dataset", backend |-> "dask", dims |-> "tyx"] >>
